@@ -90,7 +90,10 @@ TickClauses(e) ==
        <<"C13.error-pauses", e.failedNodes # <<>> => e.paused /\ e.status = "Error">>,
        \* the converse: the run is not put into the error state by the engine's own bookkeeping. With hardware and UOD callbacks
        \* that stay in their domains, an error state begins only in a tick in which an instruction (method, injected or user) failed
-       <<"C13.error-state-has-a-failed-instruction", p.t >= 0 /\ ~p.err /\ e.err => e.failedAny>>,
+       \* (site: a Stop / Restart line of the method was being executed - tracking skips every mark_* for these two commands, so a
+       \*  malformed one, e.g. "Stop: now", pauses the run with Error without its line being marked failed: recorded finding)
+       <<"C13.error-state-has-a-failed-instruction" \o (IF e.stopLine THEN "@stop-or-restart-line" ELSE ""),
+         p.t >= 0 /\ ~p.err /\ e.err => e.failedAny>>,
        <<"C13.failed-line-reported" \o (IF e.edited THEN "@after-live-edit" ELSE ""), e.failedNodes # <<>> /\ e.started => SetOfSeq(e.failedNodes) \subseteq SetOfSeq(e.mfailed)>>,
        <<"C13.stop-completes", stopAt # 0 /\ e.t + 1 >= stopAt + 3 => ~e.started>> >>
 
